@@ -357,7 +357,43 @@ def r12(ctx):
     ctx.floor(R, 5)
 
 
+def r13(ctx):
+    R = "C02-R13"
+    ctx.rule(R, "a FIN is never answered with a RST: a FIN carries no data, so nothing is lost when its addressee is gone - (a) in "
+                "Tcp::receive_from_network the Fin arm's `no such stream` edge builds no Segment::Rst (the local side closed gracefully; "
+                "there is no TIME-WAIT state and a RST would destroy what it sent before closing); (b) in StreamSocket::buffer the "
+                "`receiver dropped` edge (the read half was dropped, the write half is still open) answers RST only after looking at what "
+                "the segment at the head of the reorder buffer is")
+    rf = ctx.body(R, "turmoil::host::Tcp::receive_from_network")
+    if rf:
+        rsts = [bb for bb, i, s in rf.all_stmts() if s["r"]["k"] == "agg" and s["r"].get("adt") == "turmoil::envelope::Segment" and s["r"].get("variant") == "Rst"]
+        fin = [m["Fin"] for sbb, m, els, adt, pl in variant_edges(rf, lambda p: True) if adt == "turmoil::envelope::Segment" and "Fin" in m]
+        bad = [x for x in rsts if fin and any(rf.dominated_by_edge(x, e) for e in fin)]
+        ctx.inst(R, "receive:fin-to-closed-stream", bool(fin) and not bad, rf.site(bad[0]) if bad else rf.span,
+                 "a FIN for a stream that is gone is dropped silently" if fin and not bad else
+                 "a FIN that reaches a host after its stream was closed on both halves is answered with a RST: the RST removes the peer's socket and the "
+                 "peer's reader gets ConnectionReset instead of the bytes this side wrote before closing, then EOF")
+    bf = ctx.body(R, "turmoil::host::StreamSocket::buffer")
+    if bf:
+        rsts = [bb for bb, i, s in bf.all_stmts() if s["r"]["k"] == "agg" and s["r"].get("adt") == "turmoil::envelope::Segment" and s["r"].get("variant") == "Rst"]
+        SEQ = "turmoil::host::SequencedSegment"
+        # switches that look at the head of the reorder buffer: on the SequencedSegment itself, or on the Option a lookup in `buf` returned
+        looks = [sbb for sbb, m, els, adt, pl in variant_edges(bf, lambda p: True) if adt == SEQ]
+        for sbb, m, els, adt, pl in variant_edges(bf, lambda p: True):
+            if adt == "std::option::Option":
+                at = Slicer(ctx.w).atoms(bf, bf.term(sbb)["d"])
+                if "field:turmoil::host::StreamSocket::buf" in at and any(re.search(r"IndexMap::(get|get_mut|swap_remove|shift_remove)$", a) for a in at):
+                    looks.append(sbb)
+        ok = bool(rsts) and bool(looks) and all(bf.dominated_by_any(x, blocks=looks) for x in rsts)
+        ctx.inst(R, "buffer:fin-after-read-half-dropped", ok, bf.site(rsts[0]) if rsts else bf.span,
+                 "a RST for a dropped read half is sent only for data" if ok else
+                 "StreamSocket::buffer answers any segment - a bare FIN included - with a RST once the read half was dropped, although the write half is "
+                 "still open: the peer's shutdown() kills the direction that is still in use")
+    ctx.floor(R, 2)
+
+
 def run(ctx):
+    r13(ctx)
     r12(ctx)
     r11(ctx)
     r10(ctx)
